@@ -65,7 +65,8 @@ class Scenario:
     pre(v) -> list of boolean values (A/S or ndarray/bool): preconditions beyond the boxes
     """
 
-    def __init__(self, name, build, events=None, scalars=None, pre=None, axis="ev", strict=(), positive=(), integer=(), kinds=None, nonnegative=()):
+    def __init__(self, name, build, events=None, scalars=None, pre=None, axis="ev", strict=(), positive=(), integer=(), kinds=None, nonnegative=(),
+                 extras_sym=None, extras_native=None, extra_hyps=None):
         self.name = name
         self.build = build
         self.events = events or {}
@@ -78,6 +79,9 @@ class Scenario:
         self.integer = set(integer)
         self.kinds = kinds or {}
         self.axis = None
+        self.extras_sym = extras_sym  # () -> dict of helper objects for the symbolic run
+        self.extras_native = extras_native  # (rng) -> dict of helper objects for native runs
+        self.extra_hyps = extra_hyps  # (v) -> list of sympy hypotheses
 
     def _symbol(self, name):
         kw = {"real": True}
@@ -103,6 +107,8 @@ class Scenario:
         for name, box in self.scalars.items():
             v[name] = S(self._symbol(name), self.kinds.get(name, "np"))
         v["__axis__"] = self.axis
+        if self.extras_sym:
+            v.update(self.extras_sym())
         return v
 
     def box_hyps(self):
@@ -137,6 +143,8 @@ class Scenario:
             for c in self.pre(v):
                 e = c.e if isinstance(c, (A, S)) else sym.rat(c)
                 hy.append(sym.boo(e))
+        if self.extra_hyps is not None:
+            hy.extend(self.extra_hyps(v))
         return hy
 
     # -- native values
@@ -170,6 +178,8 @@ class Scenario:
             if name in self.integer:
                 x = int(x)
             v[name] = x
+        if self.extras_native:
+            v.update(self.extras_native(rng))
         return v
 
     def pre_ok_native(self, v):
